@@ -26,10 +26,10 @@ type timer struct {
 }
 
 type Clock struct {
-	mu     sync.Mutex
-	ticks  int64
-	timers []*timer
-	seq    int
+	mu         sync.Mutex
+	ticks      int64
+	timers     []*timer
+	seq        int
 	lastPolled *Ctx // the context polled most recently (see After)
 }
 
